@@ -427,7 +427,7 @@ fn p_media_script(script: &str) -> Res<Vec<MediaCall>> {
     Ok(out)
 }
 
-fn build_media(script: &str) -> Res<String> {
+fn build_media_with<R>(script: &str, f: impl FnOnce(&MediaPlaylist<'_>) -> R) -> Res<R> {
     let calls = p_media_script(script)?;
     let mut b = MediaPlaylist::builder();
     for c in &calls {
@@ -476,11 +476,55 @@ fn build_media(script: &str) -> Res<String> {
         }
     }
     let playlist = b.build().map_err(|_| Fail::Err)?;
-    Ok(media_response(&playlist, true))
+    Ok(f(&playlist))
+}
+
+fn build_media(script: &str) -> Res<String> {
+    build_media_with(script, |playlist| media_response(playlist, true))
 }
 
 pub fn op_build_media(script: &str) -> String {
     finish(build_media(script))
+}
+
+/// `cmp_build_media`: two builder scripts; ==, cmp and hash of the two built playlists and of their segment lists
+/// (values with explicit segment numbers are only reachable through the builders).
+pub fn op_cmp_build_media(script_a: &str, script_b: &str) -> String {
+    let r = build_media_with(script_a, |a| build_media_with(script_b, |b| cmp_media_line(a, b)));
+    match r {
+        Ok(Ok(line)) => line,
+        Err(Fail::Bad) | Ok(Err(Fail::Bad)) => BAD_OP.to_string(),
+        _ => ERR.to_string(),
+    }
+}
+
+fn cmp_media_line<'a>(a: &MediaPlaylist<'a>, b: &MediaPlaylist<'a>) -> String {
+    use crate::kinds::{hash_of, Kind, PMedia};
+    let mut out = String::from("ok ");
+    PMedia::obs(a, &mut out);
+    out.push(' ');
+    PMedia::obs(b, &mut out);
+    let sa: Vec<_> = a.segments.values().collect();
+    let sb: Vec<_> = b.segments.values().collect();
+    // the playlist and its segments must tell the same story
+    let e = a == b;
+    let es = sa == sb;
+    let c = PMedia::cmp(a, b);
+    let cs = sa.cmp(&sb);
+    let h = PMedia::hash(a).zip(PMedia::hash(b)).map(|(x, y)| x == y);
+    let hs = hash_of(&sa) == hash_of(&sb);
+    crate::ops::push_ech_pub(&mut out, e, c, h);
+    out.push_str(" X:");
+    out.push(if es { '1' } else { '0' });
+    out.push_str(" Y:");
+    out.push_str(match cs {
+        std::cmp::Ordering::Less => "lt",
+        std::cmp::Ordering::Equal => "eq",
+        std::cmp::Ordering::Greater => "gt",
+    });
+    out.push_str(" Z:");
+    out.push(if hs { '1' } else { '0' });
+    out
 }
 
 // ------------------------------------------------------------ build_master
